@@ -458,6 +458,11 @@ private:
                                 .count())
       : std::numeric_limits<uint64_t>::max();
 
+    // Pick up thread contexts registered until now. This has to happen after ts_now is taken: a
+    // thread that logged for the first time before that instant must be read in this pass,
+    // otherwise later events of other threads (e.g. a flush) can overtake its statement
+    _update_active_thread_contexts_cache();
+
     size_t cached_transit_events_count{0};
 
     for (ThreadContext* thread_context : _active_thread_contexts_cache)
